@@ -397,20 +397,20 @@ def run(ctx):
                     'that uses it', minimum=2)
     from rules import lib_core
     for _fb in (kf, kt):
-        lib_core.check_undefined_inline(ctx, _fb, rodr)
+        ctx.guard(lambda: lib_core.check_undefined_inline(ctx, _fb, rodr))
     # ---------------- fiber bodies
     fiber_fns = [f for f in kf.fn.values() if f.clsq in FIBER_CLASSES]
     if not fiber_fns:
         ctx.broken('no fiber atomic method instantiated by the probe')
     for f in sorted(fiber_fns, key=lambda f: (f.file, f.line, f.full)):
-        check_fiber_method(ctx, kf, f, rf)
+        ctx.guard(lambda: check_fiber_method(ctx, kf, f, rf))
     # ---------------- wrappers, both backends
     for cfg, fb, impl in (('KF', kf, ('yaclib::detail::fiber::',)), ('KT', kt, ('std::',))):
         ws = [f for f in fb.fn.values() if f.clsq in WRAP_CLASSES]
         if not ws:
             ctx.broken('no wrapper method instantiated in %s' % cfg)
         for f in sorted(ws, key=lambda f: (f.file, f.line, f.full)):
-            check_wrapper_method(ctx, fb, f, rw, impl)
+            ctx.guard(lambda: check_wrapper_method(ctx, fb, f, rw, impl))
     # ---------------- aliases and fences
     for cfg, fb, want, fence_std in (('KF', kf, 'yaclib::detail::Atomic<yaclib::detail::fiber::Atomic<%s>, %s>', False),
                                      ('KT', kt, 'yaclib::detail::Atomic<std::atomic<%s>, %s>', True)):
